@@ -1,0 +1,275 @@
+//! ReaderRig: a real `MessageReceiver` with real `Reader`s, each feeding a real
+//! `TopicCache` that a real `with_key::DataReader<VSample>` reads from.
+//! Datagrams go in through `MessageReceiver::handle_received_packet`; whatever
+//! the readers send (ACKNACK, NACKFRAG) is captured by `verif::net`.
+
+use std::{
+  rc::Rc,
+  sync::{Arc, Mutex},
+};
+
+use bytes::Bytes;
+use mio_extras::channel as mio_channel;
+
+use super::{net, shared, VSample, TOPIC_NAME, TYPE_NAME};
+use crate::{
+  dds::{
+    qos::policy::{History, Reliability, ResourceLimits},
+    statusevents::{sync_status_channel, DataReaderStatus, DomainParticipantStatusEvent},
+    statusevents::StatusChannelReceiver,
+    typedesc::TypeDesc,
+    with_key::{
+      datareader::DataReader,
+      simpledatareader::{ReaderCommand, SimpleDataReader},
+    },
+  },
+  discovery::discovery::DiscoveryCommand,
+  messages::submessages::submessages::AckSubmessage,
+  mio_source,
+  network::udp_sender::UDPSender,
+  rtps::{
+    message_receiver::MessageReceiver,
+    reader::{Reader, ReaderIngredients},
+    rtps_writer_proxy::RtpsWriterProxy,
+  },
+  structure::{
+    dds_cache::TopicCache,
+    entity::RTPSEntity,
+    guid::{EntityId, EntityKind, GuidPrefix, GUID},
+    locator::Locator,
+  },
+  Duration, QosPolicies, QosPolicyBuilder,
+};
+
+#[derive(Clone, Debug)]
+pub struct ReaderCfg {
+  pub reliable: bool,
+  /// None = KeepAll
+  pub history_depth: Option<i32>,
+  /// resource limit max_samples (None = library default)
+  pub max_samples: Option<i32>,
+}
+
+pub struct ReaderSlot {
+  pub entity_id: [u8; 4],
+  pub datareader: DataReader<VSample>,
+  pub(crate) topic_cache: Arc<Mutex<TopicCache>>,
+  pub(crate) notification_sender_keepalive: (),
+  pub(crate) status_keepalive: Vec<Box<dyn std::any::Any>>,
+}
+
+pub struct ReaderRig {
+  pub(crate) mr: MessageReceiver,
+  pub slots: Vec<ReaderSlot>,
+  pub(crate) acknack_receiver: mio_channel::Receiver<(GuidPrefix, AckSubmessage)>,
+  pub(crate) _spdp_liveness_receiver: mio_channel::Receiver<GuidPrefix>,
+  pub(crate) participant_status_receiver: StatusChannelReceiver<DomainParticipantStatusEvent>,
+  pub own_prefix: [u8; 12],
+}
+
+pub fn guid_from_bytes(b: [u8; 16]) -> GUID {
+  GUID::new_with_prefix_and_id(
+    GuidPrefix::new(&b[0..12]),
+    EntityId {
+      entity_key: [b[12], b[13], b[14]],
+      entity_kind: EntityKind::from(b[15]),
+    },
+  )
+}
+
+pub fn guid_to_bytes(g: GUID) -> [u8; 16] {
+  let mut out = [0u8; 16];
+  out[0..12].copy_from_slice(g.prefix.as_ref());
+  out[12..15].copy_from_slice(&g.entity_id.entity_key);
+  out[15] = g.entity_id.entity_kind.into();
+  out
+}
+
+pub fn make_qos(cfg: &ReaderCfg) -> QosPolicies {
+  let mut b = QosPolicyBuilder::new();
+  b = if cfg.reliable {
+    b.reliability(Reliability::Reliable {
+      max_blocking_time: Duration::from_millis(100),
+    })
+  } else {
+    b.reliability(Reliability::BestEffort)
+  };
+  b = match cfg.history_depth {
+    None => b.history(History::KeepAll),
+    Some(d) => b.history(History::KeepLast { depth: d }),
+  };
+  if let Some(m) = cfg.max_samples {
+    b = b.resource_limits(ResourceLimits {
+      max_samples: m,
+      max_instances: m,
+      max_samples_per_instance: m,
+    });
+  }
+  b.build()
+}
+
+impl ReaderRig {
+  pub fn new(cfgs: &[ReaderCfg]) -> Self {
+    net::capture_begin();
+    let sh = shared();
+    let own_prefix = sh.dp.guid_prefix();
+    let (acknack_sender, acknack_receiver) =
+      mio_channel::sync_channel::<(GuidPrefix, AckSubmessage)>(1024);
+    let (spdp_liveness_sender, spdp_liveness_receiver) =
+      mio_channel::sync_channel::<GuidPrefix>(1024);
+    let (participant_status_sender, participant_status_receiver) =
+      sync_status_channel::<DomainParticipantStatusEvent>(4096).unwrap();
+    let mut mr = MessageReceiver::new(own_prefix, acknack_sender, spdp_liveness_sender, None);
+
+    let mut slots = Vec::new();
+    for (i, cfg) in cfgs.iter().enumerate() {
+      let qos = make_qos(cfg);
+      let topic_cache = Arc::new(Mutex::new(TopicCache::new(
+        TOPIC_NAME.to_string(),
+        TypeDesc::new(TYPE_NAME.to_string()),
+        &qos,
+      )));
+      let entity_id =
+        EntityId::new([0, 0, i as u8 + 1], EntityKind::READER_WITH_KEY_USER_DEFINED);
+      let reader_guid = GUID::new_with_prefix_and_id(own_prefix, entity_id);
+
+      // same channel capacities as Subscriber::create_simple_datareader_internal
+      let (notification_sender, notification_receiver) = mio_channel::sync_channel::<()>(4);
+      let (status_sender, status_receiver) = sync_status_channel::<DataReaderStatus>(4).unwrap();
+      let (reader_command_sender, reader_command_receiver) =
+        mio_channel::sync_channel::<ReaderCommand>(0);
+      let data_reader_waker = Arc::new(Mutex::new(None));
+      let (poll_event_source, poll_event_sender) = mio_source::make_poll_channel().unwrap();
+      let (discovery_command_sender, discovery_command_receiver) =
+        mio_channel::sync_channel::<DiscoveryCommand>(64);
+
+      let ing = ReaderIngredients {
+        guid: reader_guid,
+        notification_sender,
+        status_sender,
+        topic_name: TOPIC_NAME.to_string(),
+        topic_cache_handle: topic_cache.clone(),
+        like_stateless: false,
+        qos_policy: qos.clone(),
+        data_reader_command_receiver: reader_command_receiver,
+        data_reader_waker: data_reader_waker.clone(),
+        poll_event_sender,
+        security_plugins: None,
+      };
+      let reader = Reader::new(
+        ing,
+        Rc::new(UDPSender::new(0).unwrap()),
+        mio_extras::timer::Builder::default().build(),
+        participant_status_sender.clone(),
+      );
+      mr.add_reader(reader);
+
+      let subscriber = sh.dp.create_subscriber(&QosPolicies::qos_none()).unwrap();
+      let sdr = SimpleDataReader::<VSample>::new(
+        subscriber,
+        entity_id,
+        sh.topic_with_key.clone(),
+        qos,
+        notification_receiver,
+        topic_cache.clone(),
+        discovery_command_sender,
+        status_receiver,
+        reader_command_sender,
+        data_reader_waker,
+        poll_event_source,
+      )
+      .unwrap();
+      let datareader = DataReader::from_simple_data_reader(sdr);
+      slots.push(ReaderSlot {
+        entity_id: [0, 0, i as u8 + 1, EntityKind::READER_WITH_KEY_USER_DEFINED.into()],
+        datareader,
+        topic_cache,
+        notification_sender_keepalive: (),
+        status_keepalive: vec![Box::new(discovery_command_receiver)],
+      });
+    }
+
+    let mut p = [0u8; 12];
+    p.copy_from_slice(own_prefix.as_ref());
+    Self {
+      mr,
+      slots,
+      acknack_receiver,
+      _spdp_liveness_receiver: spdp_liveness_receiver,
+      participant_status_receiver,
+      own_prefix: p,
+    }
+  }
+
+  fn reader_mut(&mut self, slot: usize) -> &mut Reader {
+    let b = self.slots[slot].entity_id;
+    let eid = EntityId {
+      entity_key: [b[0], b[1], b[2]],
+      entity_kind: EntityKind::from(b[3]),
+    };
+    self.mr.reader_mut(eid).expect("reader present")
+  }
+
+  /// Match a remote writer (as discovery would): `Reader::update_writer_proxy`
+  pub fn match_writer(&mut self, slot: usize, writer: [u8; 16], reliable: bool, port: u16) {
+    let guid = guid_from_bytes(writer);
+    let loc = Locator::from(std::net::SocketAddr::from(([127, 0, 0, 1], port)));
+    let proxy = RtpsWriterProxy::new(guid, vec![loc], vec![], EntityId::UNKNOWN);
+    let offered = make_qos(&ReaderCfg {
+      reliable,
+      history_depth: None,
+      max_samples: None,
+    });
+    self.reader_mut(slot).update_writer_proxy(proxy, &offered);
+  }
+
+  pub fn unmatch_writer(&mut self, slot: usize, writer: [u8; 16]) {
+    let guid = guid_from_bytes(writer);
+    self.reader_mut(slot).remove_writer_proxy(guid);
+  }
+
+  /// Feed one datagram; returns everything the readers sent in response.
+  pub fn inject(&mut self, datagram: &[u8]) -> Vec<net::Sent> {
+    net::capture_begin();
+    net::capture_take();
+    self
+      .mr
+      .handle_received_packet(&Bytes::copy_from_slice(datagram));
+    net::capture_take()
+  }
+
+  /// ACKNACK submessages that arrived for local writers (channel to the event
+  /// loop): (source prefix, writer entity id, base, count)
+  pub fn drain_acknack_channel(&mut self) -> Vec<([u8; 12], [u8; 4], i64, i32)> {
+    let mut out = Vec::new();
+    while let Ok((prefix, sub)) = self.acknack_receiver.try_recv() {
+      if let AckSubmessage::AckNack(a) = sub {
+        let mut p = [0u8; 12];
+        p.copy_from_slice(prefix.as_ref());
+        out.push((
+          p,
+          [
+            a.writer_id.entity_key[0],
+            a.writer_id.entity_key[1],
+            a.writer_id.entity_key[2],
+            a.writer_id.entity_kind.into(),
+          ],
+          i64::from(a.reader_sn_state.base()),
+          a.count,
+        ));
+      }
+    }
+    out
+  }
+
+  /// Diagnostic projection: number of changes in the topic cache of a slot.
+  pub fn topic_cache_len(&self, slot: usize) -> usize {
+    self.slots[slot].topic_cache.lock().unwrap().verif_len()
+  }
+}
+
+impl Drop for ReaderRig {
+  fn drop(&mut self) {
+    let _ = &self.participant_status_receiver;
+  }
+}
